@@ -18,7 +18,7 @@ def expectedC09 : List (String × String) := [
   ("transform.reductions.itermergeduplicates", "b9b09ef707696fc6"),
   ("transform.reductions.itermultiaggregate", "2d2ee34929687eeb"),
   ("transform.reductions.iterrowreduce", "10ad0bff66a50cc3"),
-  ("transform.reductions.itersimpleaggregate", "d76f88ccb8808bbe"),
+  ("transform.reductions.itersimpleaggregate", "a60fcc47e481ad91"),
   ("util.base.rowgroupby", "afbe1d16a7951a17")
 ]
 
